@@ -211,6 +211,9 @@ type Summary struct {
 	Extra []string
 }
 
+// (RefSummary.Other, when it has an entry for a non-integer leaf, is the
+// expected final value; otherwise the leaf must be unchanged.)
+
 // ImplSummary is the implementation side with bookkeeping.
 type ImplSummary struct {
 	Summary
@@ -390,13 +393,45 @@ func (e *Engine) initOther(c *dom.Ctx, l Leaf) absint.Value {
 // reference summary.  dontCareF masks flag bits out of the value comparison;
 // rAlt, when non-nil, is an alternative acceptable value of R.
 func (e *Engine) Compare(impl *ImplSummary, ref *RefSummary) []Diff {
+	return e.CompareUnder(impl, ref, bdd.True)
+}
+
+// CompareUnder compares only on the states satisfying care.
+func (e *Engine) CompareUnder(impl *ImplSummary, ref *RefSummary, care bdd.Node) []Diff {
 	c := impl.C
 	var diffs []Diff
 	for _, l := range e.Leaves {
 		if l.Width == 0 {
 			want := e.initOther(c, l)
-			if got := impl.Other[l.Path]; !absint.SameValue(got, want) {
-				diffs = append(diffs, Diff{Cat: "frame", What: l.Path, Msg: fmt.Sprintf("field must be left unchanged; implementation leaves %s", absint.DescribeValue(c, got))})
+			if w, ok := ref.Other[l.Path]; ok {
+				want = w
+			}
+			got := impl.Other[l.Path]
+			if _, isPtr := l.Type.Underlying().(*types.Pointer); isPtr {
+				gn, gt, ok1 := absint.FlattenPtr(c, got)
+				wn, wt, ok2 := absint.FlattenPtr(c, want)
+				if ok1 && ok2 {
+					same := c.M.And(care, c.M.Xor(gn, wn)) == bdd.False
+					for k := range gt {
+						if _, ok := wt[k]; !ok {
+							wt[k] = bdd.False
+						}
+					}
+					for k, wv := range wt {
+						if c.M.And(care, c.M.Xor(gt[k], wv)) != bdd.False {
+							same = false
+						}
+					}
+					if same {
+						continue
+					}
+					w, _ := c.Witness(c.M.And(care, c.M.Xor(gn, wn)))
+					diffs = append(diffs, Diff{Cat: "frame", What: l.Path, Msg: fmt.Sprintf("pointer field %s: nil-ness or target differs from the reference (expected nil=%v, implementation nil=%v)", l.Path, c.M.Eval(wn, w), c.M.Eval(gn, w)), Witness: c.DescribeAssignment(w)})
+					continue
+				}
+			}
+			if !absint.SameValue(got, want) {
+				diffs = append(diffs, Diff{Cat: "frame", What: l.Path, Msg: fmt.Sprintf("field %s: expected %s, implementation leaves %s", l.Path, absint.DescribeValue(c, want), absint.DescribeValue(c, got))})
 			}
 			continue
 		}
@@ -411,7 +446,11 @@ func (e *Engine) Compare(impl *ImplSummary, ref *RefSummary) []Diff {
 			}
 			ne = c.M.Or(ne, c.M.Xor(got[i], want[i]))
 		}
+		ne = c.M.And(ne, care)
 		if ne == bdd.False {
+			continue
+		}
+		if l.Path == isa.LocR && ref.Info.DontCareR {
 			continue
 		}
 		if l.Path == isa.LocR && ref.Info.RAlt {
@@ -429,6 +468,10 @@ func (e *Engine) Compare(impl *ImplSummary, ref *RefSummary) []Diff {
 		diffs = append(diffs, Diff{Cat: "state", What: l.Path,
 			Msg:     fmt.Sprintf("after the instruction %s is %#x in the implementation, %#x in the reference (implementation: %s; reference: %s)", l.Path, c.EvalBV(got, w), c.EvalBV(want, w), c.Describe(got), c.Describe(want)),
 			Witness: full})
+	}
+	if care != bdd.True {
+		impl.Trace.SetCare(care)
+		ref.Trace.SetCare(care)
 	}
 	im := impl.Trace.MultisetChar(nil)
 	rm := ref.Trace.MultisetChar(nil)
@@ -450,7 +493,7 @@ type ArmResult struct {
 	Pos         string
 	Implemented bool // a non-default arm exists (no unsupported-opcode log)
 	Undecided   error
-	Diffs       []Diff   // vs the reference (or vs "unsupported" for an unimplemented undocumented encoding)
+	Diffs       []Diff // vs the reference (or vs "unsupported" for an unimplemented undocumented encoding)
 	Note        string
 	ImplEvents  []string
 	RefEvents   []string
